@@ -271,6 +271,11 @@ def train_multi_agent_on_policy(
                     next_obs, reward, termination, truncation, info = env.step(
                         clipped_action
                     )
+                    # Rewards of agents that share a policy are summed per shared agent ID
+                    shared_reward = {shared_id: 0 for shared_id in agent_ids}
+                    for agent_id, agent_reward in reward.items():
+                        shared_reward[agent.get_homo_id(agent_id)] += agent_reward
+
                     score_increment = (
                         (
                             np.sum(
@@ -282,9 +287,7 @@ def train_multi_agent_on_policy(
                             )
                         )
                         if sum_scores
-                        else np.array(
-                            list(agent.sum_shared_rewards(reward).values())
-                        ).transpose()
+                        else np.array(list(shared_reward.values())).transpose()
                     )
 
                     scores += score_increment
